@@ -113,7 +113,8 @@ func tryValidate(val reflect.Value) error {
 	if (t.Kind() == reflect.Ptr || t.Kind() == reflect.Interface) && val.IsNil() {
 		return nil
 	}
-	for val.Kind() == reflect.Interface || (val.Kind() == reflect.Ptr && val.Type().Elem().Kind() == reflect.Ptr) {
+	for val.Kind() == reflect.Interface || (val.Kind() == reflect.Ptr &&
+		(val.Type().Elem().Kind() == reflect.Ptr || val.Type().Elem().Kind() == reflect.Interface)) {
 		// validate the value stored in an interface typed field or held behind
 		// more than one pointer
 		val = val.Elem()
